@@ -606,6 +606,59 @@ theorem flows_as_modelled :
      ("zcnsc.UpdateGlobalConfig", ["getConfig", "authorize", "decode", "update", "save(gn.GetKey())"])] := by
   decide +kernel
 
+/-- the source text of the helpers the hand-written part of the model transcribes: the cost-key handling, the update loops,
+`StringToInterface`, `WithActivation`, and the functions the `validate` conditions call (`toSeconds` — truncating division by
+`time.Second` —, `PriceRange.isValid`); the translator refuses a validate condition that calls anything else. An edit of one
+of them breaks this theorem and the model has to be revisited. -/
+theorem helper_src_as_modelled :
+    Generated.C48.flows.filter (fun p => p.1.toList.take 4 = "src:".toList) = [
+     ("src:config.StringToInterface", ["{ switch iType { case Int: return strconv.Atoi(input) case Int32: v64, err := strconv.ParseInt(input, 10, 32) return int32(v64), err case Int64: return strconv.ParseInt(input, 10, 64) case Duration: return time.ParseDuration(input) case Float64: return strconv.ParseFloat(input, 64) case Boolean: return strconv.ParseBool(input) case String: return input, nil case CurrencyCoin: value, err := strconv.ParseInt(input, 10, 64) if err != nil { return nil, err } return currency.Int64ToCoin(value) case Strings: return strings.Split(input, \",\"), nil default: panic(fmt.Sprintf(\"StringToInterface input %s unsupported type %v\", input, iType)) } }"]),
+     ("src:cstate.WithActivation", ["{ round, err := GetRoundByName(ctx, name) if err != nil && !errors.Is(util.ErrValueNotPresent, err) { logging.Logger.Error(\"with_activation\", zap.Error(err)) } if errors.Is(err, util.ErrNodeNotFound) { return err } if ctx.GetBlock().Round < round { err = before() } else { err = after() } return err }"]),
+     ("src:faucetsc.setCostValue", ["{ if !strings.HasPrefix(key, Settings[Cost]) { return fmt.Errorf(\"key %s not recognised as setting\", key) } costKey := strings.ToLower(strings.TrimPrefix(key, Settings[Cost]+\".\")) for _, costFunction := range costFunctions { if costKey != strings.ToLower(costFunction) { continue } costValue, err := strconv.Atoi(value) if err != nil { return fmt.Errorf(\"key %s, unable to convert %v to integer\", key, value) } if costValue < 0 { return fmt.Errorf(\"cost.%s contains invalid value %s\", key, value) } gn.Cost[costKey] = costValue return nil } return fmt.Errorf(\"cost config setting %s not found\", costKey) }"]),
+     ("src:faucetsc.toSeconds", ["{ return common.Timestamp(dur / time.Second) }"]),
+     ("src:minersc.GlobalNode.update", ["{ for key, value := range changes.Fields { if err := gn.set(key, value); err != nil { return err } } return nil }"]),
+     ("src:minersc.isCost", ["{ if len(key) <= len(costPrefix) { return false } return key[:len(costPrefix)] == costPrefix }"]),
+     ("src:minersc.setCost", ["{ if !isCost(key) { return fmt.Errorf(\"key: %v is not a cost\", key) } if gn.Cost == nil { gn.Cost = make(map[string]int) } gn.Cost[strings.TrimPrefix(key, costPrefix)] = change return nil }"]),
+     ("src:storagesc.Config.update", ["{ for key, value := range changes.Fields { trimmedKey := strings.TrimSpace(key) trimmedValue := strings.TrimSpace(value) if err := conf.set(trimmedKey, trimmedValue); err != nil { return err } } return nil }"]),
+     ("src:storagesc.PriceRange.isValid", ["{ return pr.Min <= pr.Max }"]),
+     ("src:storagesc.isCost", ["{ if len(key) <= len(costPrefix) { return false } return key[:len(costPrefix)] == costPrefix }"]),
+     ("src:storagesc.setCost", ["{ if !isCost(key) { return fmt.Errorf(\"key: %v is not a cost\", key) } if conf.Cost == nil { conf.Cost = make(map[string]int) } conf.Cost[strings.TrimPrefix(key, costPrefix)] = change return nil }"]),
+     ("src:vestingsc.setCostValue", ["{ if !strings.HasPrefix(key, Settings[Cost]) { return fmt.Errorf(\"config setting %s not found\", key) } costKey := strings.ToLower(strings.TrimPrefix(key, Settings[Cost]+\".\")) for _, costFunction := range costFunctions { if costKey != strings.ToLower(costFunction) { continue } costValue, err := strconv.Atoi(value) if err != nil { return fmt.Errorf(\"key %s, unable to convert %v to integer\", key, value) } if costValue < 0 { return fmt.Errorf(\"cost.%s contains invalid value %s\", key, value) } c.Cost[costKey] = costValue return nil } return fmt.Errorf(\"cost config setting %s not found\", costKey) }"]),
+     ("src:vestingsc.toSeconds", ["{ return common.Timestamp(dur / time.Second) }"]),
+     ("src:zcnsc.setCostValue", ["{ if !strings.HasPrefix(key, fmt.Sprintf(\"%s.\", Cost)) { return fmt.Errorf(\"key %s not recognised as setting\", key) } costKey := strings.ToLower(strings.TrimPrefix(key, fmt.Sprintf(\"%s.\", Cost))) for _, costFunction := range CostFunctions { if costKey != strings.ToLower(costFunction) { continue } costValue, err := strconv.Atoi(value) if err != nil { return fmt.Errorf(\"key %s, unable to convert %v to integer\", key, value) } if costValue < 0 { return fmt.Errorf(\"cost.%s contains invalid value %s\", key, value) } gn.Cost[costKey] = costValue return nil } return fmt.Errorf(\"cost config setting %s not found\", costKey) }"])] := by
+  decide +kernel
+
+/-- faucetsc: a configuration that passes `validate` has `individual_reset ≥ 1 s` (`toSeconds` truncates) -/
+theorem faucet_valid_individual_reset_ge_1s (c : Cfg) (h : Contract.validate .faucet c = none) :
+    c.int (str% "individual_reset") ≥ 1000000000 := by
+  have hff : ∀ (l : List Bool) (i : Nat), firstFailing.go l i = none → ∀ b ∈ l, b = false := by
+    intro l
+    induction l with
+    | nil => intro _ _ b hb; simp at hb
+    | cons x r ih =>
+      intro i hn b hb
+      unfold firstFailing.go at hn
+      cases x with
+      | true => simp at hn
+      | false =>
+        simp only [Bool.false_eq_true, if_false] at hn
+        rcases List.mem_cons.mp hb with hb | hb
+        · exact hb
+        · exact ih _ hn b hb
+  have := hff (faucetChecks c) 0 h (decide (toSeconds (c.int (str% "individual_reset")) < 1)) (by simp [faucetChecks])
+  have h2 : ¬ Int.tdiv (c.int (str% "individual_reset")) 1000000000 < 1 := of_decide_eq_false this
+  apply Decidable.byContradiction
+  intro hlt
+  apply h2
+  by_cases hneg : c.int (str% "individual_reset") < 0
+  · have h3 : (- - c.int (str% "individual_reset")).tdiv 1000000000 = - (- c.int (str% "individual_reset")).tdiv 1000000000 :=
+      Int.neg_tdiv (- c.int (str% "individual_reset")) 1000000000
+    rw [Int.neg_neg] at h3
+    have h4 : 0 ≤ Int.tdiv (- c.int (str% "individual_reset")) 1000000000 := Int.tdiv_nonneg (by omega) (by omega)
+    omega
+  · have : Int.tdiv (c.int (str% "individual_reset")) 1000000000 = 0 := Int.tdiv_eq_zero_of_lt (by omega) (by omega)
+    omega
+
 /-- every `validate` of the model has one check per condition of the Go function (the conditions themselves are pinned by
 `validate_src_as_modelled`) -/
 theorem validate_check_counts :
